@@ -581,6 +581,12 @@ def c07(res, tier, seed, replay):
         runs.append({"name": f"fault-{cfgname}-{ctag}", "timeout": 2400, "tlc_timeout": 2400,
                      "args": ["-mode", "fault", "-config", cfgname, "-cache", cache, "-seed", seed * 100 + i, "-hist", hist,
                               "-batches", batches, "-max-faults", maxf, "-kills", kills, "-rank", 1, "-sample", 25]})
+    # large batches rejected late (an existing id among ~60 new ones) on cold caches: stages must have stopped
+    # before the transaction is rolled back
+    for s in range(3 if tier == "quick" else 10):
+        runs.append({"name": f"fault-bigreject-{s}", "timeout": 1200, "tlc_timeout": 2400,
+                     "args": ["-mode", "fault", "-config", "vamana-euclidean", "-nids", 400, "-maxbatch", 60, "-cache", "0", "-seed", seed * 100 + 70 + s,
+                              "-hist", 1, "-batches", 10, "-max-faults", 4, "-kills", 0, "-rank", 1, "-sample", 10]})
     results = drive_and_validate(res, runs)
     nf = nk = nfail = 0
     distinct = set()
